@@ -222,6 +222,23 @@ T = {
  "C10-s8": ("C10", ["C10"], "internal/history/file.go Write builds the record with strconv.AppendQuote instead of json.Marshal", "a line with a C0 control other than \\b\\t\\n\\f\\r, DEL, a non-printable astral character or invalid UTF-8"),
  "C20-s7": ("C20", ["C20"], "internal/core/keys.go extractCursorPos compacts the read buffer in place; the report handed over aliases it (third independent find of this family)", "an asynchronous redisplay with the next key arriving behind the report in the same read"),
  "C20-s8": ("C20", ["C20"], "internal/core/keys_unix.go readInputFiltered decrements cursorReq when it hands a report over, GetCursorPos decrements too", "the second asynchronous redisplay in the lifetime of the Shell"),
+
+ "C03-s7": ("C03", ["C03"], "internal/keymap/dispatch.go: the test for giving the ruling-out key back changed from bind.Action != \"\" to command != nil: a macro bind has no command", "a sequence bound to a macro that is also a proper prefix of a longer binding, then a key that rules the longer one out"),
+ "C03-s8": ("C03", ["C03"], "internal/core/keys.go MatchedKeys: keys given back go through Feed (runes) instead of being prepended as bytes: a lone lead byte of a multi-byte character becomes U+FFFD", "a / ab bound and a multi-byte ruling-out key, or a multi-byte character typed while a local keymap is active"),
+ "C07-s7": ("C07", ["C07"], "history.go up/down-line-or-history call SkipSave like the other line movements: the arrival state of the second history line visited is never saved", "two or more C-p, then typed text, then undos: the recalled line's stored text is never reached"),
+ "C07-s8": ("C07", ["C07"], "internal/history/undo.go Undo: 'starting to undo' read from the undoing flag, which the main loop clears after every command: older states are appended again at every undo", "two or more consecutive undos, then more redos than undos that changed the line"),
+ "C09-s7": ("C09", ["C09"], "internal/history/sources.go Walk: h.skip = false dropped before the Save made when leaving the typed line (same site as C09-s1, found independently)", "beginning-of-history from typed text, then back down past the newest entry"),
+ "C09-s8": ("C09", ["C09"], "internal/completion/isearch.go NonIsearchStart: two branches merged, the search cursor is no longer put at the end of the repeated text; match() cuts the text at the cursor", "Vi command mode, ?text RET (right), then n / N: every entry matches"),
+ "C11-s7": ("C11", ["C11"], "internal/term/raw_unix.go Restore puts back only the flag bits MakeRaw changes, not VMIN / VTIME (third independent find of this family)", "VMIN/VTIME other than 1/0 before the call"),
+ "C11-s8": ("C11", ["C11"], "readline.go / internal/display: the cursor style reset moved from a deferred print in Readline to the end of AcceptLine; RunPending reprints the keymap's style after it", "Vi command mode with an operator pending (d, c, y, with or without a count), then Return or C-c"),
+ "C13-s7": ("C13", ["C13"], "inputrc/parse.go $include: the sub-parser is a struct copy sharing the condition stack (third independent find of this family)", "$include inside an active block, an included file whose last block at that level is inactive, directives after the $include"),
+ "C13-s8": ("C13", ["C13"], "inputrc/parse.go findStringEnd: a quote is taken as escaped when the character before it is a backslash, also after an escaped backslash", "a quoted key sequence or macro ending with \\\\ right before the closing quote"),
+ "C14-s7": ("C14", ["C14"], "internal/completion/engine.go Autocomplete: as-you-type completions are not regenerated when the line text is unchanged; the prefix depends on the cursor too", "set autocomplete on, a cursor-only movement to another word, then Tab"),
+ "C14-s8": ("C14", ["C14"], "internal/completion/insert.go: the completed line is reset with Line.Set (shares the array) and the prefix cut is skipped for an empty prefix: the candidate is written over the text after the cursor", "empty word, text after the cursor, then C-c or a second Tab"),
+ "C16-s7": ("C16", ["C16"], "emacs.go cutRange helper + internal/core/line.go Line.Cut in place: the slice handed to the kill ring aliases the line and is overwritten by the cut", "shell-kill-word / shell-backward-kill-word with text left after the killed range"),
+ "C16-s8": ("C16", ["C16"], "internal/editor/buffers.go: the numbered registers become a slice, newest first; the cap keeps the last N and drops the entry just pushed", "an 11th kill on the same Shell"),
+ "C18-s7": ("C18", ["C18"], "internal/core/keys.go PopForce becomes PopKey and loses mustWait = false: a lone ESC handled by handleEscape is not recorded", "a recording with an ESC that leaves Vi insert mode, the ESC being the last byte of a read"),
+ "C18-s8": ("C18", ["C18"], "internal/macro/engine.go: macros stored as typed, RunMacro no longer unescapes, RunLastMacro still does", "a macro containing a backslash, replayed with C-x e"),
  # own mutants
  "m-C01b": ("C01", ["C01"], "internal/core/keys.go ReadKey: a read error only aborts the command when bytes were read with it (`err != nil && len(buf) > 0`): the loop spins on a failing terminal", 'an argument-reading command, then EOF/EIO at its argument read'),
  "m-C02": ("C02", ["C02"], "emacs.go selfInsert: a non-ASCII character is dropped when the buffer length is 15 mod 16", 'a non-ASCII character typed at buffer length 15, 31, ...'),
